@@ -1,0 +1,23 @@
+//go:build verif
+
+package uasc
+
+// Environment behaviour for the verification scenarios (build tag verif only).
+
+// VerifEnvReviseLifetime, when set, decides the lifetime a server-side channel
+// grants for a requested one. A server may revise the requested lifetime
+// (OPC UA Part 4, 5.5.2); this package's own server side always grants what was
+// asked for, so a scenario that needs a revising server installs this function.
+// It only takes effect in the scheduler engine's instrumented copy, where the
+// server-side assignment of RevisedLifetime is routed through verifEnvRevise;
+// nothing in this package calls it otherwise.
+var VerifEnvReviseLifetime func(requested uint32) uint32
+
+func verifEnvRevise(requested uint32) uint32 {
+	if f := VerifEnvReviseLifetime; f != nil {
+		return f(requested)
+	}
+	return requested
+}
+
+var _ = verifEnvRevise
